@@ -1418,6 +1418,12 @@ def f_allclose(a, b, rtol=1e-05, atol=1e-08, equal_nan=False):
     return bool(f_all(d))
 
 
+def f_isclose(a, b, rtol=1e-05, atol=1e-08, equal_nan=False):
+    a = _sa(a)
+    b = _sa(b)
+    return numpy.absolute(a - b) <= (atol + rtol * numpy.absolute(b))
+
+
 def f_array_equal(a, b, **kw):
     a = _sa(a)
     b = _sa(b)
@@ -1585,7 +1591,7 @@ _FUNCS = {
     numpy.linalg.norm: f_norm, numpy.median: f_median, numpy.allclose: f_allclose,
     numpy.array_equal: f_array_equal, numpy.diag: f_diag, numpy.einsum: f_einsum,
     numpy.triu: f_triu, numpy.tril: f_tril, numpy.count_nonzero: f_count_nonzero,
-    numpy.searchsorted: f_searchsorted,
+    numpy.searchsorted: f_searchsorted, numpy.isclose: f_isclose,
 }
 
 
@@ -1745,9 +1751,25 @@ class NumpyProxy:
         if not has_sym(list(a)):
             return box(numpy.arange(*a, **kw))
         a = [operator.index(x) if isinstance(x, SV) and x.is_int else x for x in a]
-        if has_sym(a):
-            raise EngineUnsupported("arange with symbolic real bounds")
-        return box(numpy.arange(*a, **kw))
+        if not has_sym(a):
+            return box(numpy.arange(*a, **kw))
+        # real-valued arange: numpy's documented length rule ceil((stop-start)/step),
+        # values start + i*step
+        if len(a) == 1:
+            start, stop, step = 0.0, a[0], 1.0
+        elif len(a) == 2:
+            start, stop, step = a[0], a[1], 1.0
+        else:
+            start, stop, step = a[0], a[1], a[2]
+        q = sym.sv_div(sym.to_real(stop) - sym.to_real(start), sym.to_real(step))
+        if isinstance(q, float):
+            raise EngineUnsupported("arange with non-finite length")
+        n = sym.sv_ceil(q)
+        if isinstance(n, SV):
+            n = operator.index(sym.norm(z3.ToInt(n.e)))
+        n = max(int(n), 0)
+        cells = [sym.to_real(start) + i * sym.to_real(step) for i in range(n)]
+        return SymArray(mkobj(cells), _F64)
 
     def linspace(self, start, stop, num=50, endpoint=True, **kw):
         if not self.enabled or not (has_sym(start) or has_sym(stop)):
